@@ -293,6 +293,9 @@ fn systematic_histories() -> Vec<History> {
         ),
         ("inherited-empty", "VS_INHERITED=", "true", "VS_INHERITED=again"),
         ("inherited-export-n", "export -n VS_INHERITED", "VS_INHERITED=still-not-exported", "export VS_INHERITED"),
+        // (seed 103 of the sweep: unset, then set again as a plain shell variable)
+        ("inherited-unset-then-plain", "unset VS_INHERITED", "VS_INHERITED=", "VS_INHERITED=plain-again"),
+        ("inherited-unset-then-export", "unset VS_INHERITED", "true", "export VS_INHERITED=back"),
         ("export-n", "export VE1=one VE2=two", "export -n VE1", "export VE1; export -n VE2"),
         ("attr-case", "declare -l VL1=MiXed; declare -u VU1=MiXed", "VL1=AGAIN; VU1=again", "unset VL1; declare +u VU1; VU1=Plain"),
         ("export-empty", "export VEMPTY=", "VEMPTY=filled", "export VEMPTY="),
